@@ -120,6 +120,26 @@ func resolveTree(v *model.Value, ctx *model.Context, nontriv *bool) (*model.Valu
 	return w, ok
 }
 
+// resolveLSTFields returns a copy of a table struct in which field names given by ID carry the text the context gives them.
+func resolveLSTFields(v *model.Value, ctx *model.Context) *model.Value {
+	w := v.Clone()
+	var fix func(x *model.Value, depth int)
+	fix = func(x *model.Value, depth int) {
+		if x.Field != nil && x.Field.ByID {
+			if r, in := ctx.Resolve(x.Field.SID); in {
+				*x.Field = r
+			}
+		}
+		if depth < 3 {
+			for _, k := range x.Kids {
+				fix(k, depth+1)
+			}
+		}
+	}
+	fix(w, 0)
+	return w
+}
+
 // expectHistory runs the symbol-context model over a history.
 func expectHistory(events []ctxEvent, cat *model.Catalog) expectation {
 	e := expectation{valid: true}
@@ -137,8 +157,9 @@ func expectHistory(events []ctxEvent, cat *model.Catalog) expectation {
 			e.hasBVM = true
 			e.names = append(e.names, "bvm")
 		case ev.V != nil && model.IsLST(ev.V):
-			// symbols inside the table struct itself are system symbols given by text
-			d := model.DeclFromStruct(ev.V)
+			// field names of the table struct (and of its import structs) may be given by ID: they resolve against the
+			// context in force before the table takes effect
+			d := model.DeclFromStruct(resolveLSTFields(ev.V, ctx))
 			e.items = append(e.items, render.Item{V: ev.V})
 			if err := ctx.Apply(d, cat); err != nil {
 				e.wantErr = true
@@ -188,7 +209,7 @@ var ctxPool = []model.Shared{
 	{Name: "F", Version: 100, Symbols: []string{"f1", "f2", "f3", "f4", "f5", "f6"}},
 }
 
-var ctxLocalTexts = []string{"x", "y", "zed", "dup", "a1", "name", "q_1", "$ion", "hello", "w", "a b", "é", "k9"}
+var ctxLocalTexts = []string{"x", "y", "zed", "dup", "a1", "name", "q_1", "$ion", "hello", "w", "a b", "é", "k9", "symbols", "imports", "max_id", "version"}
 
 func poolVersions(name string) []int {
 	var out []int
@@ -283,6 +304,32 @@ func lstStruct(r *prng.Rand, d model.LSTDecl) *model.Value {
 	for _, j := range r.Perm(len(fields)) {
 		st.Kids = append(st.Kids, fields[j])
 	}
+	return st
+}
+
+// fieldsByLocalID respells, every other time, a field name of a table struct (or of one of its import structs) by a
+// local ID whose text in the context in force is that very name ("symbols", "imports", "name", "version", "max_id").
+func fieldsByLocalID(r *prng.Rand, st *model.Value, ctx *model.Context) *model.Value {
+	var fix func(x *model.Value, depth int)
+	fix = func(x *model.Value, depth int) {
+		if x.Field != nil && x.Field.HasText && !x.Field.ByID {
+			var ids []int64
+			for i, sl := range ctx.Slots {
+				if i >= 9 && sl.Known && sl.Text == x.Field.Text {
+					ids = append(ids, int64(i+1))
+				}
+			}
+			if len(ids) > 0 && r.Bool() {
+				*x.Field = model.Sym{SID: ids[r.Intn(len(ids))], ByID: true}
+			}
+		}
+		if depth < 3 {
+			for _, k := range x.Kids {
+				fix(k, depth+1)
+			}
+		}
+	}
+	fix(st, 0)
 	return st
 }
 
@@ -387,7 +434,7 @@ func genHistory(r *prng.Rand, cat *model.Catalog, binary bool) []ctxEvent {
 			for j := r.Intn(6); j > 0; j-- {
 				d.Symbols = append(d.Symbols, model.Slot{Text: ctxLocalTexts[r.Intn(len(ctxLocalTexts))], Known: true})
 			}
-			events = append(events, ctxEvent{V: lstStruct(r, d)})
+			events = append(events, ctxEvent{V: fieldsByLocalID(r, lstStruct(r, d), ctx)})
 			if err := ctx.Apply(d, cat); err != nil {
 				failed = true
 			}
@@ -396,7 +443,7 @@ func genHistory(r *prng.Rand, cat *model.Catalog, binary bool) []ctxEvent {
 			for j := r.Intn(5); j > 0; j-- {
 				d.Symbols = append(d.Symbols, model.Slot{Text: ctxLocalTexts[r.Intn(len(ctxLocalTexts))], Known: true})
 			}
-			events = append(events, ctxEvent{V: lstStruct(r, d)})
+			events = append(events, ctxEvent{V: fieldsByLocalID(r, lstStruct(r, d), ctx)})
 			ctx.Apply(d, cat)
 		default:
 			events = append(events, ctxEvent{V: genValue(0)})
